@@ -46,6 +46,7 @@ fn main() {
         "lock-child" => small::cmd_lock_child(&args),
         "lock-replay" => small::cmd_lock_replay(&args),
         "lock-race" => small::cmd_lock_race(&args),
+        "pagesearch-replay" => small::cmd_pagesearch_replay(&args),
         "migrate-replay" => small::cmd_migrate_replay(&args),
         "admin-replay" => small::cmd_admin_replay(&args),
         "workers-scenario" => workers::cmd_scenario(&args),
